@@ -512,6 +512,7 @@ func (k c24Case) changed(negotiated uint16) c24Case {
 }
 
 func (cf *c24Configs) run(k c24Case, opt tlspair.Options) *tlspair.Result {
+	opt = guarded(opt)
 	switch k.Peer {
 	case "zz":
 		return tlspair.RunZZ(cf.zc, cf.zs, opt)
@@ -836,6 +837,9 @@ func (k c24Case) checkConn(c *core.Ctx, r *tlspair.Result, conn string, expectRe
 		return c24Obs{Case: k, Conn: conn, Model: m, Client: cs.String(), Server: ss.String(), CHello: hexList(ch.Suites), Note: note}
 	}
 	c.Eval(1)
+	if reportPanics(c, r, id, mk("")) {
+		return cs, ss, false
+	}
 	if r.TimedOut {
 		noteWatchdog(c, "C24 "+id)
 		return cs, ss, false
@@ -1061,7 +1065,8 @@ func (k c24Case) runCase(c *core.Ctx) {
 	cs1, ss1, decided := k.checkConn(c, r1, "1", 0, nil)
 	if decided && cs1.OK && ss1.OK {
 		if err := r1.PingPong([]byte("ping-c24"), []byte("pong-c24")); err != nil {
-			if !r1.TimedOut {
+			if reportPanics(c, r1, k.ID+"/1", k) {
+			} else if !r1.TimedOut {
 				c.Violation("application_data_after_handshake_failed:"+k.Peer, err.Error(), k.ID+"/1", c24Obs{Case: k, Conn: "1", Client: cs1.String(), Server: ss1.String()})
 			}
 			r1.Close()
@@ -1154,6 +1159,9 @@ func (k c24Case) runMITM(c *core.Ctx) {
 	c.Eval(1)
 	cs, ss := clientSide(r), serverSide(r)
 	obs := map[string]any{"case": k, "plan": acts, "client": cs.String(), "server": ss.String()}
+	if reportPanics(c, r, id, obs) {
+		return
+	}
 	if r.TimedOut {
 		noteWatchdog(c, "C24 "+id)
 		return
